@@ -1,4 +1,4 @@
-import BppProofs.Lemmas.AliasOk
+import BppProofs.Lemmas.AliasViewInv
 /-!
 # C03 — aliased parameters track their source through every update, copy and renaming
 (src/Bpp/Numeric/AbstractParameterAliasable.{h,cpp}, ParameterAliasable.h, Parameter.{h,cpp})
@@ -416,6 +416,54 @@ theorem refuse_unknown {w : World} (h : Inv w) {k : Nat} {o : Obj} (ho : w.objs 
     (unk : find? w.heap o.params (o.pre ++ p1) = none ∨ find? w.heap o.params (o.pre ++ p2) = none) :
     (aliasPair w k p1 p2).err = some .notfound ∧ (aliasPair w k p1 p2).w = w :=
   (aliasPair_spec (h.obj k o ho) ho p1 p2).1 unk
+
+/-- **the refusal clause evaluated on the implementation**: whenever `Alias.mustRefuse` (computed from
+the observable view: unknown name, `p2` already a target, `p1 = p2`, or `p2` among the parameters
+`p1` follows) says the request must be refused, the model refuses it and leaves the world
+untouched — in every reachable world. -/
+theorem refuse_clause {w : World} (h : Inv w) {k : Nat} {o : Obj} (ho : w.objs k = some o) (p1 p2 : String)
+    (must : mustRefuse p1 p2 (svOf w o) = true) :
+    (aliasPair w k p1 p2).err ≠ none ∧ (aliasPair w k p1 p2).w = w := by
+  have hi := h.obj k o ho
+  have hshorts : (svOf w o).shorts = shortNames w o := by
+    simp only [SV.shorts, SV.short, svOf, shortNames, List.map_map]; rfl
+  cases h1 : find? w.heap o.params (o.pre ++ p1) with
+  | none => have := refuse_unknown h ho (p2 := p2) (Or.inl h1); exact ⟨by rw [this.1]; simp, this.2⟩
+  | some i1 =>
+    cases h2 : find? w.heap o.params (o.pre ++ p2) with
+    | none => have := refuse_unknown h ho (p1 := p1) (Or.inr h2); exact ⟨by rw [this.1]; simp, this.2⟩
+    | some i2 =>
+      obtain ⟨hm1, hn1⟩ := ParamList.find?_some h1
+      obtain ⟨hm2, hn2⟩ := ParamList.find?_some h2
+      obtain ⟨pos1, hp1⟩ := hi.exists_pos hm1
+      obtain ⟨pos2, hp2⟩ := hi.exists_pos hm2
+      have hs1 : p1 ∈ shortNames w o := (mem_shortNames hi).2 ⟨i1, hm1, hn1⟩
+      have hs2 : p2 ∈ shortNames w o := (mem_shortNames hi).2 ⟨i2, hm2, hn2⟩
+      have c1 : (shortNames w o).contains p1 = true := List.contains_iff_mem.2 hs1
+      have c2 : (shortNames w o).contains p2 = true := List.contains_iff_mem.2 hs2
+      simp only [mustRefuse, hshorts, c1, c2, Bool.not_true, Bool.false_or, Bool.or_eq_true, beq_iff_eq] at must
+      rcases must with (htg | heq) | hfol
+      · have hnot : i2 ∉ o.indep := fun hin =>
+          (hi.indepIff i2 hm2).1 hin ((isTarget_svOf hi hm2 hn2).1 htg)
+        have := refuse_twice h ho h1 h2 hnot
+        exact ⟨by rw [this.1]; simp, this.2⟩
+      · subst heq
+        rw [h1] at h2; cases h2
+        have := refuse_cycle h ho h1 h1 hp1 hp1 Relation.ReflTransGen.refl
+        exact ⟨by rw [this.1]; simp, this.2⟩
+      · simp only [SV.follows, List.contains_iff_mem] at hfol
+        have htg := mem_ancestors (svOf w o) _ p1 p2 hfol
+        have hlift : Relation.TransGen (Follows w o) (posOf w o p1) (posOf w o p2) :=
+          Relation.TransGen.lift (posOf w o) (fun c p hcp => follows_of_link hi ho hcp) p1 p2 htg
+        rw [posOf_spec hi hp1 hn1, posOf_spec hi hp2 hn2] at hlift
+        have := refuse_cycle h ho h1 h2 hp1 hp2 hlift.to_reflTransGen
+        exact ⟨by rw [this.1]; simp, this.2⟩
+
+/-- **the invariant clause evaluated on the implementation**: `SV.inv` is true of the view of every
+object of every reachable world -/
+theorem inv_clause (ops : List Op) (hw : WfRun World.init ops) (k : Nat) (o : Obj)
+    (ho : (run World.init ops).objs k = some o) : (svOf (run World.init ops) o).inv = true :=
+  inv_view (inv_reachable ops hw) (heapOk_run ops inv_init hw (fun j hj => absurd hj (Nat.not_lt_zero _))) ho
 
 /-- non-vacuity of `refuse_cycle`: c follows b follows a; `alias(c, a)` closes a cycle of length 3 -/
 example : (step (run abc [.alias 0 "a" "b", .alias 0 "b" "c"]) (.alias 0 "c" "a")).2 = .err .bpp ∧
